@@ -290,29 +290,68 @@ func c15Concurrent(c *mon.Ctx) {
 			pool = append(pool, logenc.GenTypedCompound(r, typ))
 		}
 	}
-	// sequential reference
-	ref := make([]string, len(pool))
-	for i := range pool {
+	// EXECVE records with 1..N arguments, interleaved over the goroutines in ascending order: state that the
+	// library grows lazily with the largest input seen so far is grown concurrently
+	for n := 1; n <= c.Pick(400, 1500); n += 1 + n/40 {
+		hdr := fmt.Sprintf("msg=audit(1500000000.%03d:%d):", n%1000, 700000+n)
+		l := fmt.Sprintf("type=EXECVE %s argc=%d", hdr, n)
+		for i := 0; i < n; i++ {
+			l += fmt.Sprintf(" a%d=\"v%d_%d\"", i, n, i)
+		}
+		pool = append(pool, logenc.Group{Name: fmt.Sprintf("execve-%d", n), Lines: []string{
+			fmt.Sprintf("type=SYSCALL %s arch=c000003e syscall=59 success=yes exit=0 a0=1 a1=2 a2=3 a3=4 items=0 ppid=1 pid=%d auid=0 uid=0 gid=0 euid=0 suid=0 fsuid=0 egid=0 sgid=0 fsgid=0 tty=pts0 ses=1 comm=\"c%d\" exe=\"/bin/c%d\" key=(null)", hdr, 1000+n, n, n), l}})
+	}
+	one := func(i int) string {
 		e, err := aucoalesce.CoalesceMessages(parseLoose(&pool[i]))
 		if e != nil {
 			aucoalesce.ResolveIDs(e)
 		}
-		ref[i] = eventSig(e, err)
+		return eventSig(e, err)
 	}
-	rounds := c.Pick(6, 60)
-	for round := 0; round < rounds; round++ {
+	G := 16
+	// COLD concurrent round first: nothing has been coalesced in this process yet, so lazily built global
+	// state (caches, tables) is built by the racing goroutines themselves; the sequential reference comes after
+	cold := make([]string, len(pool))
+	{
 		var wg sync.WaitGroup
-		G := 16
 		for g := 0; g < G; g++ {
 			wg.Add(1)
 			go func(g int) {
 				defer wg.Done()
 				for i := g; i < len(pool); i += G {
-					e, err := aucoalesce.CoalesceMessages(parseLoose(&pool[i]))
-					if e != nil {
-						aucoalesce.ResolveIDs(e)
-					}
-					if sig := eventSig(e, err); sig != ref[i] {
+					cold[i] = one(i)
+					c.Add("cold_concurrent_coalesce_calls", 1)
+				}
+			}(g)
+		}
+		wg.Wait()
+	}
+	ref := make([]string, len(pool))
+	for i := range pool {
+		ref[i] = one(i)
+	}
+	// the reference itself must be stable (a second sequential pass), otherwise the process state is damaged
+	for i := range pool {
+		if sig := one(i); sig != ref[i] {
+			c.Violation("sequential-result-unstable", fmt.Sprintf("group %d coalesced twice sequentially after the concurrent round gives different events: %s", i, diffSig(ref[i], sig)), &c15Case{Groups: []logenc.Group{pool[i]}})
+			break
+		}
+	}
+	for i := range pool {
+		if cold[i] != ref[i] {
+			c.Violation("concurrent-result-differs", fmt.Sprintf("group %d coalesced+resolved in the cold concurrent round differs from the sequential result: %s", i, diffSig(ref[i], cold[i])), &c15Case{Groups: []logenc.Group{pool[i]}})
+			break
+		}
+	}
+	rounds := c.Pick(6, 60)
+	for round := 0; round < rounds; round++ {
+		var wg sync.WaitGroup
+		for g := 0; g < G; g++ {
+			wg.Add(1)
+			go func(g int) {
+				defer wg.Done()
+				for i := g; i < len(pool); i += G {
+					if sig := one(i); sig != ref[i] {
 						c.Violation("concurrent-result-differs", fmt.Sprintf("group %d coalesced+resolved concurrently differs from the sequential reference: %s", i, diffSig(ref[i], sig)), &c15Case{Groups: []logenc.Group{pool[i]}})
 					}
 					c.Add("concurrent_coalesce_calls", 1)
@@ -329,7 +368,7 @@ func c15Concurrent(c *mon.Ctx) {
 func init() {
 	register(&mon.CheckSpec{
 		ID: "C15", Level: "exploration",
-		Rule: "cases = seeded operation histories over a pool of 6-12 message groups (generated SYSCALL groups and single records with unique values, compound events that share one first record type - every named type in turn - with different syscalls, the repo's 47 recorded events, groups of hostile mutated text): CoalesceMessages(i), the same again, ResolveIDs(e_j) through the global caches (names injected with HardcodeUsers/Groups for determinism), and a re-check of EVERY event returned so far after every operation. Deep copies of Data()/Tags()/ToMapStr() of every input message taken before its first use must equal the values afterwards; a repeated coalesce must give an equal event (JSON + sorted multiset of warning texts); every retained event must equal its own snapshot at every later step. A second phase under the race detector coalesces and resolves different groups from 16 goroutines and compares with the sequential reference. distinct_nontrivial = distinct histories (by pool text and op list) that contain a repeated coalesce or a ResolveIDs while other events are retained.",
+		Rule: "cases = seeded operation histories over a pool of 6-12 message groups (generated SYSCALL groups and single records with unique values, compound events that share one first record type - every named type in turn - with different syscalls, the repo's 47 recorded events, groups of hostile mutated text): CoalesceMessages(i), the same again, ResolveIDs(e_j) through the global caches (names injected with HardcodeUsers/Groups for determinism), and a re-check of EVERY event returned so far after every operation. Deep copies of Data()/Tags()/ToMapStr() of every input message taken before its first use must equal the values afterwards; a repeated coalesce must give an equal event (JSON + sorted multiset of warning texts); every retained event must equal its own snapshot at every later step. A second phase under the race detector coalesces and resolves different groups (incl. EXECVE records with 1..N arguments in ascending order) from 16 goroutines - the FIRST round on the cold process, before anything was coalesced sequentially, so lazily built global state is built by racing goroutines - and compares with a sequential reference computed afterwards (which must itself be stable). distinct_nontrivial = distinct histories (by pool text and op list) that contain a repeated coalesce or a ResolveIDs while other events are retained.",
 		Assumptions: []string{
 			"the ORDER of Event.Warnings is not asserted (they are produced while ranging over maps); warnings are compared as a sorted multiset",
 			"ResolveIDs may change the event it is given; all other retained events and all input messages must stay equal",
